@@ -35,6 +35,16 @@ def handleEval (req : List Sx) : Option String :=
       let (rs, s) := runSession NumOps.native f (initialES i) es
       some ("(" ++ " ".intercalate (rs.map outcomeWire) ++ ") " ++ frameWire (s.env.headD []))
     | _, _, _ => some "bad-request"
+  | [.atom "session-negnan", .atom fuel, inputs, .list stmts] =>
+    -- the same session under the other NaN-sign convention (see `NumOps.nativeNegNaN`)
+    let inp : Option (Option Value) := match inputs with
+      | .atom "-" => some none
+      | v => (Value.ofSx v).map some
+    match fuel.toNat?, inp, stmts.mapM Expr.ofSx with
+    | some f, some i, some es =>
+      let (rs, s) := runSession NumOps.nativeNegNaN f (initialES i) es
+      some ("(" ++ " ".intercalate (rs.map outcomeWire) ++ ") " ++ frameWire (s.env.headD []))
+    | _, _, _ => some "bad-request"
   | [.atom "binop", .atom o, a, b] =>
     -- operator applied to two data values (no callable operands)
     match BinOp.ofWire o, Value.ofSx a, Value.ofSx b with
